@@ -490,10 +490,11 @@ class Features:
     abstract_without_concrete_descendants: bool = False  #: golang/python/typescript generators assert
     descendants_without_model_type: bool = False  #: class with concrete descendants but no with_model_type: jsonschema asserts
     classes_without_properties: bool = False  #: python jsonization raises ViolationError (empty setter)
-    undocumented_classes: bool = False  #: a class without docstring that gets an interface: java raises ViolationError
+    undocumented_classes: bool = False  #: a class without docstring, with >= 2 bases, that gets an interface: java raises ViolationError
     tautologies_after_narrowing: bool = False  #: ``x is None or x is not None``: rejected by the type checker
     multiple_patterns_per_value: bool = False  #: two pattern constraints on one value: xsd intersects them with greenery (minutes, or "digit escaping" error)
     impl_specific_classes: bool = False  #: ``@implementation_specific`` classes: csharp asserts, java raises ViolationError, cpp reports an error
+    two_argument_methods: bool = False  #: a method with exactly two arguments: csharp/java/typescript generators assert (``len(arg_codes) > 2`` / ``== 1`` / else)
 
     HAZARDS = (
         "non_ascii_values", "control_char_values", "huge_ints", "lists_of_non_classes", "nested_lists",
@@ -501,7 +502,7 @@ class Features:
         "arithmetic_on_constrained", "duplicate_enum_values", "guards_on_other_property", "joined_str_in_invariants",
         "local_variables_in_functions", "abstract_without_concrete_descendants", "descendants_without_model_type",
         "classes_without_properties", "undocumented_classes", "tautologies_after_narrowing", "multiple_patterns_per_value",
-        "impl_specific_classes",
+        "impl_specific_classes", "two_argument_methods",
     )
 
     @staticmethod
@@ -1006,7 +1007,12 @@ class _Gen:
                 continue
             kind = self.pick(["bool", "int", "opt_str"])
             ret: Type = {"bool": Prim("bool"), "int": Prim("int"), "opt_str": OptionalOf(Prim("str"))}[kind]
-            c.methods.append(Method(self.names.fresh("compute"), [], ret, impl_specific=True, description="Compute something implementation-specific." if self.ft.descriptions else None))
+            nargs = self.pick([0, 0, 1, 3] + ([2, 2] if self.ft.two_argument_methods else []))
+            args = [Arg(self.names.fresh("arg"), self.pick([Prim("int"), Prim("str"), OptionalOf(Prim("bool"))])) for _ in range(nargs)]
+            desc = None
+            if self.ft.descriptions:
+                desc = "Compute something implementation-specific." + "".join(f"\n\n:param {a.name}: an argument" if i == 0 else f"\n:param {a.name}: an argument" for i, a in enumerate(args))
+            c.methods.append(Method(self.names.fresh("compute"), args, ret, impl_specific=True, description=desc))
 
     # ---- invariants of classes
 
